@@ -184,7 +184,7 @@ merge_h!(c09_t_merge_k2_set_between, 6, 2, Some(2), merge_set, LIM_Q);
 //# funcs=Segments::merge,segments::merge; bound=2 entries, boundaries < 2^32, start in the last entry; invariant + held set; stubs=none
 merge_h!(c09_t_merge_k2_set_in_last, 6, 2, Some(3), merge_set, LIM_Q);
 //# funcs=Segments::merge,segments::merge; bound=2 entries, boundaries < 2^32, start after the last entry; invariant + held set; stubs=none
-merge_h!(c09_t_merge_k2_set_after_last, 6, 2, Some(4), merge_set, LIM_Q);
+merge_h!(c09_x_merge_k2_set_after_last, 6, 2, Some(4), merge_set, LIM_Q);
 //# funcs=Segments::merge,segments::merge; bound=pre-state: every invariant list with 3 entries; returned byte count (may be inconclusive: memory); stubs=none
 merge_h!(c09_x_merge_k3_count, 7, 3, None, merge_count, LIM);
 
